@@ -122,7 +122,7 @@ def make(rng, name, node=False, with_starts=None, with_ignore=None, with_cons=No
                 # coverage by length: edge lengths on some edges (missing = 1), fraction < 1 or 1
                 for e in G.edges():
                     if rng.random() < 0.7:
-                        G.edges[e]["len"] = rng.choice([1, 2, 3, 5])
+                        G.edges[e]["len"] = rng.choice([1, 2, 3, 5, 0])
                 kw["length_attr"] = "len"
                 kw["subpath_constraints_coverage_length"] = rng.choice([0.5, 0.75, 1])
                 info["coverage_length"] = kw["subpath_constraints_coverage_length"]
